@@ -118,12 +118,34 @@ def task_line(cid, t):
 
 def run(tier, replay=None):
     chk = core.Check("C13", tier)
-    for f in os.listdir(os.path.join(core.OUT, "C13")):
-        os.unlink(os.path.join(core.OUT, "C13", f))
     lres = core.lean_check(THM)
     core.proof_coverage(chk, lres, THM)
     tag = c10.build_tag("c13")
     b = core.build("asan", harness=["h_entry", "h_hist"], tag=None if tag == "c13" else tag)
+    scratch = os.path.join(core.OUT, "C13", "scratch_%d" % os.getpid())      # per process: concurrent runs do not share files
+    os.makedirs(scratch, exist_ok=True)
+    try:
+        found = run_body(chk, lres, b, tier, replay, scratch)
+    except sl.HarnessCrash as e:
+        chk.violation("harness_crash.json", e.replay_obj("entry", "h_entry"))
+        found = True
+    except Exception as e:
+        import traceback
+        chk.violation("harness_unexpected.json", {"kind": "harness-crash-or-unexpected-output", "engine": "entry", "harness": "h_entry",
+                                                  "error": repr(e), "traceback": traceback.format_exc()[-3000:],
+                                                  "case": replay["case"] if replay else None}, no_input=not replay)
+        found = True
+    finally:
+        import shutil
+        shutil.rmtree(scratch, ignore_errors=True)
+    core.handle_broken_proof(chk, lres, found)
+    chk.assumptions += ["iterator convention of tests/util.c (not-ready does not advance; first() resets)",
+                        "multi-block runs are compared only with runs of the same partition (strings do not match across blocks)",
+                        "known finding F27: not-ready during rule evaluation (signature: a deviating subset must contain a not-ready answer delivered to rule evaluation)"]
+    return chk.finish("proof")
+
+
+def run_body(chk, lres, b, tier, replay, scratch):
     r = core.rng("C13")
     found = False
     if replay:
@@ -134,7 +156,7 @@ def run(tier, replay=None):
         sl.describe(b["h_hist"], [t[1] for t in tasks], core)
         lines = [task_line("t%d" % i, t) for i, t in enumerate(tasks)] + c10.corpus_lines("C13")
         kinds = {"t%d" % i: t[0] for i, t in enumerate(tasks)}
-    env = {"ASAN_OPTIONS": "detect_leaks=0:abort_on_error=0:exitcode=99", "VF_SCRATCH": os.path.join(core.OUT, "C13")}
+    env = {"ASAN_OPTIONS": "detect_leaks=0:abort_on_error=0:exitcode=99", "VF_SCRATCH": scratch}
     impl, rc, err = core.run_parallel([b["h_entry"]], lines, env=env, timeout=2400)
     if rc != 0 or len(impl) != len(lines):
         chk.violation("harness_crash.json", {"kind": "harness-crash-or-sanitizer", "rc": rc, "stderr": err, "engine": "entry",
@@ -222,8 +244,4 @@ def run(tier, replay=None):
                             "non-trivial = an interrupted run (non-empty subset) or an entry-point task",
                     "distribution": stats,
                     "samples": [{"case": lines[0][:500] + " ...", "implementation": impl[0][:400] if impl else None, "model": model[0][:400] if model else None}]})
-    core.handle_broken_proof(chk, lres, found)
-    chk.assumptions += ["iterator convention of tests/util.c (not-ready does not advance; first() resets)",
-                        "multi-block runs are compared only with runs of the same partition (strings do not match across blocks)",
-                        "known finding F27: not-ready during rule evaluation (signature: a deviating subset must contain a not-ready answer delivered to rule evaluation)"]
-    return chk.finish("proof")
+    return found
